@@ -18,6 +18,8 @@ func TestVerifSim(t *testing.T) {
 		vs.WorkerMain(t, "exec-sim", "I", runI)
 	case "M":
 		vs.WorkerMain(t, "exec-sim", "M", runM)
+	case "X":
+		vs.WorkerMain(t, "race-sim", "X", runX)
 	case "R":
 		vs.WorkerMain(t, "exec-sim", "R", runR)
 	case "O":
